@@ -94,16 +94,18 @@ func init() {
 				}
 				return false, "counter not compared with the cap on this path"
 			})
-		ndec := 0
-		ast.Inspect(hc.Decl.Body, func(n ast.Node) bool {
-			if ds, ok := n.(*ast.DeferStmt); ok {
-				if se, ok := ast.Unparen(ds.Call.Fun).(*ast.SelectorExpr); ok && p.FieldOwner(se.X) == "Memberlist.pushPullReq" && se.Sel.Name == "Add" {
-					ndec++
-				}
+		// the slot taken is given back exactly once on every way out
+		nexit := 0
+		for _, ex := range xh.Exits {
+			inc, dec := ex.Seen["ATOMICINC:Memberlist.pushPullReq"], ex.Seen["ATOMICDEC:Memberlist.pushPullReq"]
+			if inc == 0 && dec == 0 {
+				continue
 			}
-			return true
-		})
-		c.Check("C09/inbound/cap-release", "the push/pull counter is released by a deferred decrement", hc.Decl.Pos(), ndec == 1, fmt.Sprintf("%d deferred decrements", ndec))
+			nexit++
+			c.Check("C09/inbound/cap-release", "the push/pull counter is decremented exactly once on every way out of an exchange that incremented it", ex.Pos, inc == 1 && dec == 1,
+				fmt.Sprintf("exit at %s with %d increment(s) and %d decrement(s) of the concurrent push/pull counter", p.Pos(ex.Pos), inc, dec))
+		}
+		c.Floor("exits of the inbound handler that took a push/pull slot", nexit, 1)
 
 		pp := c.MustFunc("Memberlist.pushPullNode")
 		xp := c.flow(pp, map[string]string{})
@@ -124,7 +126,7 @@ func init() {
 		// Join counts a host only if its exchange succeeded
 		jn := c.MustFunc("Memberlist.Join")
 		okJoin := false
-		ast.Inspect(jn.Decl.Body, func(n ast.Node) bool {
+		inspectFn(jn, func(n ast.Node) bool {
 			ifs, ok := n.(*ast.IfStmt)
 			if !ok || ifs.Init == nil {
 				return true
@@ -331,7 +333,7 @@ func checkVerifyProtocol(c *Ctx) {
 		return ""
 	}
 	n := 0
-	ast.Inspect(fn.Decl.Body, func(nd ast.Node) bool {
+	inspectFn(fn, func(nd ast.Node) bool {
 		ifs, ok := nd.(*ast.IfStmt)
 		if !ok || ifs.Else != nil || len(ifs.Body.List) != 1 {
 			return true
@@ -378,7 +380,7 @@ func checkVerifyProtocol(c *Ctx) {
 	c.Check("C09/verify/four-accumulators", rule, fn.Decl.Pos(), len(accs) == 4, fmt.Sprintf("%d accumulators", len(accs)))
 	// range checks: cur < accMin || cur > accMax with matching families
 	nr := 0
-	ast.Inspect(fn.Decl.Body, func(nd ast.Node) bool {
+	inspectFn(fn, func(nd ast.Node) bool {
 		ifs, ok := nd.(*ast.IfStmt)
 		if !ok {
 			return true
@@ -409,7 +411,7 @@ func checkVerifyProtocol(c *Ctx) {
 				return ""
 			}
 			fam := ""
-			ast.Inspect(fn.Decl.Body, func(m ast.Node) bool {
+			inspectFn(fn, func(m ast.Node) bool {
 				if as, ok := m.(*ast.AssignStmt); ok {
 					for i, lh := range as.Lhs {
 						if lid, ok := lh.(*ast.Ident); ok && i < len(as.Rhs) {
